@@ -207,6 +207,49 @@ impl Prop for Months {
         if c.off != 0 {
             // which zone "day of month" is read in is not specified when an offset is set:
             // only time of day and offset preservation are asserted
+            // the two readings of "the date": the UTC date (what the code does) and the date in the
+            // value's own zone. Where both give a representable result whose reading in its zone
+            // is representable too, a panic is a violation and the result is one of the two; where
+            // both lie outside the range, the call has to panic; in between nothing is asserted.
+            let local = ia + c.off as i128 * tl::NS;
+            let lstart = cal::ymd_from_days(local.div_euclid(tl::DAY_NS) as i64);
+            let ltarget = cal::add_months(lstart, delta);
+            let utc_res = if in_range { Some(cal::days_from_ymd(target.0, target.1, target.2) as i128 * tl::DAY_NS + c.ns as i128) } else { None };
+            let loc_res = if cal::valid_in_range(ltarget.0, ltarget.1, ltarget.2) {
+                let l = cal::days_from_ymd(ltarget.0, ltarget.1, ltarget.2) as i128 * tl::DAY_NS + local.rem_euclid(tl::DAY_NS);
+                if tl::representable(l - c.off as i128 * tl::NS) { Some(l - c.off as i128 * tl::NS) } else { None }
+            } else {
+                None
+            };
+            let settled = |x: Option<i128>| x.map_or(false, |i| tl::representable(i + c.off as i128 * tl::NS));
+            match (&r, utc_res, loc_res) {
+                (Err(p), Some(_), Some(_)) if settled(utc_res) && settled(loc_res) && tl::representable(local) => {
+                    return fail(
+                        &format!("{}.panics_though_in_range", sigbase),
+                        format!("{} returns (the target date is inside the range whether it is read in UTC or in the value's zone)", what),
+                        p.short(),
+                    );
+                }
+                (Ok((day, ns, _)), None, None) => {
+                    return fail(
+                        &format!("{}.no_panic_out_of_range", sigbase),
+                        format!("{} panics (the target date is outside the range whether it is read in UTC or in the value's zone)", what),
+                        format!("returned {} +{}ns", fmt_day(*day), ns),
+                    );
+                }
+                (Ok((day, ns, _)), Some(a), Some(b)) => {
+                    cx.nt("offset_receiver_judged_on_both_readings_of_the_date");
+                    let got = *day as i128 * tl::DAY_NS + *ns as i128;
+                    if got != a && got != b {
+                        return fail(
+                            &format!("{}.wrong_date", sigbase),
+                            format!("{} = {} (UTC date) or {} (date in the value's zone)", what, fmt_instant(a), fmt_instant(b)),
+                            fmt_instant(got),
+                        );
+                    }
+                }
+                _ => cx.label("offset_receiver_near_a_range_end(readings_disagree,not_judged)"),
+            }
             return match r {
                 Ok((_, ns, off)) => {
                     if ns != c.ns {
